@@ -52,8 +52,8 @@ def judgeAll (lim : Limits) (nEv : Nat) (ctors : List String) (impl : List Strin
 #guard judgeAll lim0 1 [] ["r err es=1", "obs ticks=50 maxcsp=20 maxsp=7 csp=-1 sp=-1 cost=2000 depth=20 stack=300"] != []
 #guard judgeAll lim0 1 [] ["r err es=1", "obs ticks=50 maxcsp=19 maxsp=300 csp=-1 sp=-1 cost=2000 depth=20 stack=300"] != []
 #guard judgeAll { lim0 with cost := 0 } 1 [] ["r ret 0", "obs ticks=4000 maxcsp=1 maxsp=2 csp=-1 sp=-1 cost=0 depth=20 stack=300"] != []
-#guard judgeAll { lim0 with noCodeCallbacks := 5000 } 1 [] ["r ret 0"] != []
-#guard judgeAll { lim0 with noCodeCallbacks := 50 } 1 [] ["r ret 0"] == []
+#guard judgeAll { lim0 with noCodeCallbacks := 5000 } 1 [] ["r ret 0", "obs ticks=10 maxcsp=1 maxsp=2 csp=-1 sp=-1 cost=2000 depth=20 stack=300 maxtouch=-1 cost0=2000 handlers=0"] != []
+#guard judgeAll { lim0 with noCodeCallbacks := 50 } 1 [] ["r ret 0", "obs ticks=10 maxcsp=1 maxsp=2 csp=-1 sp=-1 cost=2000 depth=20 stack=300 maxtouch=-1 cost0=2000 handlers=0"] == []
 
 /-! ### sizes: every value within the limit of its type, every constructor answered -/
 #guard judgeAll lim0 0 ["allocate"] ["sz ok 101"] != []
@@ -74,7 +74,14 @@ def judgeAll (lim : Limits) (nEv : Nat) (ctors : List String) (impl : List Strin
 #guard judgeAll lim0 1 [] ["r ret \"kke:100/100\""] == []
 
 /-! ### a regexp match that needs more than the budget pays for must not be followed by a normal return -/
-#guard judgeAll { lim0 with rxMustExpire := true } 1 [] ["r ret 0"] != []
-#guard judgeAll { lim0 with rxMustExpire := true } 1 [] ["r err es=2"] == []
+#guard judgeAll { lim0 with rxMustExpire := true } 1 [] ["r ret 0", "obs ticks=10 maxcsp=1 maxsp=2 csp=-1 sp=-1 cost=2000 depth=20 stack=300 maxtouch=-1 cost0=2000 handlers=0"] != []
+#guard judgeAll { lim0 with rxMustExpire := true } 1 [] ["r err es=2", "obs ticks=10 maxcsp=1 maxsp=2 csp=-1 sp=-1 cost=2000 depth=20 stack=300 maxtouch=-1 cost0=2000 handlers=0"] == []
+
+/-! ### callbacks that execute no instruction are charged: as many of them as the budget has ticks cannot be followed by a normal return -/
+#guard judgeAll { lim0 with noCodeCallbacks := 2000 } 1 [] ["r ret 0", "obs ticks=10 maxcsp=1 maxsp=2 csp=-1 sp=-1 cost=2000 depth=20 stack=300 maxtouch=-1 cost0=2000 handlers=0"] != []
+#guard judgeAll { lim0 with noCodeCallbacks := 1999 } 1 [] ["r ret 0", "obs ticks=10 maxcsp=1 maxsp=2 csp=-1 sp=-1 cost=2000 depth=20 stack=300 maxtouch=-1 cost0=2000 handlers=0"] == []
+#guard judgeAll { lim0 with noCodeCallbacks := 5000 } 1 [] ["r err es=2", "obs ticks=10 maxcsp=1 maxsp=2 csp=-1 sp=-1 cost=2000 depth=20 stack=300 maxtouch=-1 cost0=2000 handlers=0"] == []
+-- the budget the evaluation started with counts, not the one configured meanwhile (set_eval_limit)
+#guard judgeAll { lim0 with noCodeCallbacks := 1, cost := 1 } 1 [] ["r ret 1", "obs ticks=6 maxcsp=0 maxsp=1 csp=-1 sp=-1 cost=1 depth=200 stack=0 maxtouch=-1 cost0=1000000 handlers=0"] == []
 
 end NV.C04
